@@ -11,7 +11,7 @@ one() {
     case $e in *violations*) continue;; esac
     id=$(basename $e .json)
     for dir in $dirs; do
-      [ "$dir" = "." ] && dir=""
+      true
       if jq -e --arg d "$dir" '.coverage.packages | index($d)' $e >/dev/null 2>&1; then props="$props $id"; break; fi
     done
   done
